@@ -2485,9 +2485,8 @@ func c16HoistCountsAll(c *Ctx) {
 		c.Fail(rule, "anchor", token.NoPos, "writeBufYAMLFile not found")
 		return
 	}
-	info := fr.Info()
 	n := 0
-	ast.Inspect(fr.Decl.Body, func(m ast.Node) bool {
+	deepInspect(p, fr, 2, func(m ast.Node, info *types.Info) bool {
 		as, ok := m.(*ast.AssignStmt)
 		if !ok || len(as.Lhs) != 1 {
 			return true
@@ -2504,30 +2503,18 @@ func c16HoistCountsAll(c *Ctx) {
 			return true
 		}
 		n++
-		// parent chain up to the enclosing loop: only blocks
-		direct := false
-		var cur ast.Node = as
-		for {
-			par := p.Parent(cur)
-			if par == nil {
+		// unconditional: no if / switch / select between the store and the enclosing loop or function body
+		direct := true
+		for cur := p.Parent(as); cur != nil; cur = p.Parent(cur) {
+			switch cur.(type) {
+			case *ast.IfStmt, *ast.SwitchStmt, *ast.TypeSwitchStmt, *ast.SelectStmt, *ast.CaseClause:
+				direct = false
+			case *ast.RangeStmt, *ast.ForStmt, *ast.FuncDecl, *ast.FuncLit:
+				cur = nil
+			}
+			if cur == nil || !direct {
 				break
 			}
-			if blk, ok := par.(*ast.BlockStmt); ok {
-				if _, isLoop := p.Parent(blk).(*ast.RangeStmt); isLoop {
-					direct = true
-					break
-				}
-				if _, isFor := p.Parent(blk).(*ast.ForStmt); isFor {
-					direct = true
-					break
-				}
-				// a nested plain block is fine, an if/switch body is not
-				if _, plain := p.Parent(blk).(*ast.BlockStmt); plain {
-					cur = blk
-					continue
-				}
-			}
-			break
 		}
 		c.Ob(rule, "writeBufYAMLFile/"+exprString(ix.X), as.Pos(), direct, true, "%s receives the section of every module (store is unconditional in the module loop): %v", exprString(ix.X), direct)
 		return true
